@@ -361,9 +361,10 @@ fn invocations(dir: &std::path::Path) -> Vec<Inv> {
 }
 
 fn run_inv(bin: &str, inv: &Inv) -> Option<(String, String)> {
-    let out = std::process::Command::new(bin).args(&inv.args).env("NO_COLOR", "1").env_remove("CLICOLOR_FORCE").stderr(std::process::Stdio::piped()).stdout(std::process::Stdio::piped()).output();
+    let out = mc::output_with_timeout(std::process::Command::new(bin).args(&inv.args).env("NO_COLOR", "1").env_remove("CLICOLOR_FORCE"), 20);
     let out = match out {
-        Ok(o) => o,
+        Ok(Some(o)) => o,
+        Ok(None) => return Some(("process/never-returns".into(), format!("[{}] the command did not finish within 20 s and was killed", inv.name))),
         Err(e) => return Some(("machinery/spawn".into(), format!("cannot run the binary: {}", e))),
     };
     let stdout = String::from_utf8_lossy(&out.stdout).to_string();
@@ -490,6 +491,7 @@ pub fn run() {
             for i in &ints {
                 for r in &resets {
                     runs += 1;
+                    mc::watch::progress(|| line(p, c, n, i, r));
                     match one(p, c, n, i, r, &cfgs) {
                         None => {
                             outcomes.insert((p, n.min(3), i.len().min(2), r.len().min(2)));
